@@ -1371,6 +1371,11 @@ func cfgMonitors(ctx *Ctx, o *cfgHistObs, pool *cfgPool) {
 		if so.ErrClass == 0 && so.Stage != 0 {
 			ctx.Monitor(fmt.Sprintf("C10/unservable-configuration-loaded:%s", f.Fault), fmt.Sprintf("step %d: a file with the fault %q (to be refused at stage %d) was reported loaded", i, f.Fault, so.Stage), o)
 		}
+		// ... and a configuration that can be served does load (every address it names is free or
+		// already held by this server)
+		if so.ErrClass != 0 && so.Stage == 0 && f.Kind == 0 {
+			ctx.Monitor(fmt.Sprintf("%s/servable-configuration-refused", ctx.Stats.Property), fmt.Sprintf("step %d: a configuration the server can serve was refused: %s", i, so.Err), o)
+		}
 		// C10: a failed step changes nothing observable
 		if so.ErrClass != 0 && prev != nil {
 			for li := range pool.lkeys {
@@ -1585,6 +1590,33 @@ func genHistory(rng *Rng, faultBias int) *cfgHistory {
 		}
 		h.Files = append(h.Files, f)
 	}
+	h.fillKeys()
+	return h
+}
+
+// a fixed history: TCP and UDP on one address, then only the UDP listener is kept (the manager
+// must not forget the packet listener when the last stream handle of that address string goes),
+// then the key changes on the kept listener, then TCP comes back
+func corpusHistoryCrossKind() *cfgHistory {
+	h := &cfgHistory{NAddrs: 4, NLegacy: 2, Replay: 0}
+	k1 := cfgKeyC{ID: "k901", Cipher: 0, Secret: 1}
+	k2 := cfgKeyC{ID: "k902", Cipher: 3, Secret: 2}
+	both := []cfgListener{{Type: 0, Addr: 1}, {Type: 1, Addr: 1}}
+	udp := []cfgListener{{Type: 1, Addr: 1}}
+	tcp := []cfgListener{{Type: 0, Addr: 1}}
+	h.Files = []cfgFile{
+		{Svcs: []cfgSvc{{Ls: both, Keys: []cfgKeyC{k1}}}},
+		{Svcs: []cfgSvc{{Ls: udp, Keys: []cfgKeyC{k1}}}},
+		{Svcs: []cfgSvc{{Ls: udp, Keys: []cfgKeyC{k2}}}},
+		{Svcs: []cfgSvc{{Ls: both, Keys: []cfgKeyC{k2}}}},
+		{Svcs: []cfgSvc{{Ls: tcp, Keys: []cfgKeyC{k2}}}},
+		{Svcs: []cfgSvc{{Ls: tcp, Keys: []cfgKeyC{k1}}}},
+	}
+	h.fillKeys()
+	return h
+}
+
+func (h *cfgHistory) fillKeys() {
 	// probe keys: every valid (cipher, secret) of any file, plus one that never appears
 	seen := map[probeKey]bool{}
 	add := func(k cfgKeyC) {
@@ -1614,7 +1646,6 @@ func genHistory(rng *Rng, faultBias int) *cfgHistory {
 		h.Keys = h.Keys[:9]
 	}
 	h.Keys = append(h.Keys, probeKey{0, 99})
-	return h
 }
 
 func cfgScenario(prop string, faultBias int, traffic bool, nQuick, nThorough int) scenario {
@@ -1626,6 +1657,9 @@ func cfgScenario(prop string, faultBias int, traffic bool, nQuick, nThorough int
 		hs := make([]*cfgHistory, n)
 		for i := range hs {
 			hs[i] = genHistory(ctx.Rng.Fork(), faultBias)
+		}
+		if len(hs) > 1 {
+			hs[len(hs)-1] = corpusHistoryCrossKind() // corpus
 		}
 		if ctx.ReplayF != "" {
 			if b, err := os.ReadFile(ctx.ReplayF); err == nil {
